@@ -9,7 +9,7 @@ import itertools
 
 import facts
 import tri
-from facts import walk, peel, call_is, variant_of, strip_ref, pat_str
+from facts import walk, peel, unblock, call_is, variant_of, strip_ref, pat_str
 from show import show
 from tri import Child, Model, Ret, Unrecognised, SR
 
@@ -328,6 +328,14 @@ def run(rep):
             rep.lost("TRI-VERDICT", "TRI-VERDICT/anchor/" + fname, "function " + fname)
             continue
         calls = [n for n in walk(f.body) if call_is(n, "solver::solve_expression")]
+        dele = unblock(f.body)
+        if not calls and dele.get("k") == "Call" and dele.get("fn") in ("solver::solve", "core::solve", "core::solve_expression") and dele["fn"] != fname and dele["args"]:
+            # nothing but a call of a sibling wrapper (whose own table is checked in this loop): the same verdicts
+            rep.ok("TRI-VERDICT", "TRI-VERDICT/one-call/" + fname, f.sp, "delegates to the wrapper %s" % dele["fn"])
+            a0 = show(dele["args"][0])
+            rep.check(a0 == ("detection" if dele["fn"] == "solver::solve" else "expression"), "TRI-VERDICT", "TRI-VERDICT/arg/" + fname, dele["sp"], "evaluates the rule's own expression", a0)
+            rep.ok("TRI-VERDICT", "TRI-VERDICT/table/" + fname, f.sp, "the table of %s" % dele["fn"])
+            continue
         rep.check(len(calls) == 1, "TRI-VERDICT", "TRI-VERDICT/one-call/" + fname, f.sp, "exactly one solve_expression call", str(len(calls)))
         if len(calls) != 1:
             continue
@@ -362,6 +370,8 @@ def run(rep):
     import core
     core.import_rules(rep, "c01", {"LINEAR"})
     core.import_rules(rep, "c03", {"L-MATRIX"}, key_prefixes=("L-MATRIX/lookup-", "L-MATRIX/one-cell-per-column", "L-MATRIX/pass-agreement"))
+    # the of(n)/all() tables are stated over the written members: the optimiser keeps the quantifier and the counted group as they are
+    core.import_rules(rep, "c01", {"COUNTER-CONTEXT"}, key_prefixes=("COUNTER-CONTEXT/shake_0/", "COUNTER-CONTEXT/shake_1/", "COUNTER-CONTEXT/matrix/"))
     core.import_rules(rep, "c01", {"ORDER-AND", "LAW"}, key_prefixes=("ORDER-AND/shake_0/", "LAW/shake_0/flatten", "LAW/shake_0/group-of-one", "LAW/or-symmetric", "LAW/shake_1/nested-merge"))
     rep.floor("TRI-OR", 2 * KMAX + 3)
     rep.floor("TRI-AND", 2 * KMAX + 3)
